@@ -333,6 +333,7 @@ func registerModels(ex *Exec) {
 	registerSignedBigModels(ex)
 	registerEdwardsModels(ex)
 	registerBctModels(ex)
+	registerSeqModels(ex)
 	registerMiscModels(ex)
 }
 
